@@ -363,10 +363,11 @@ func c08Check(in c08Input) (key, what string) {
 	return "", ""
 }
 
-// c08LayoutFinding: the file is one the PLAIN round trip (no import management) already changes, in
-// exactly the same way, through one of the two layout defects recorded under C01 (go/printer's column
-// tests: an own-line comment in the column of a closing ) or }, a //line directive in column 1 of
-// indented code).  Import management is transparent there; the byte difference is C01's finding.
+// c08LayoutFinding: the file is one the PLAIN round trip (no import management) already fails to
+// reproduce, and the import-managed round trip changes it in exactly the same way: the layout defects
+// recorded under C01 (go/printer's column tests on own-line comments; DESIGN 0.5).  Import management is
+// transparent there -- the byte difference is C01's finding, and C01's check is the one that reports a
+// layout defect that is not yet recorded.
 func c08LayoutFinding(src, out string) string {
 	var plain bytes.Buffer
 	pm := safely(func() {
@@ -379,13 +380,7 @@ func c08LayoutFinding(src, out string) string {
 	if pm != "" || plain.String() != out {
 		return ""
 	}
-	if c01HasColumn1LineDirective(src) {
-		return "line-directive-in-indented-code"
-	}
-	if c01HasCommentAlignedWithCloser(src, out) {
-		return "own-line-comment-aligned-with-closer"
-	}
-	return ""
+	return "plain-round-trip-differs-identically"
 }
 
 // c08CheckTypes: the same demands with the type-based identifier resolver
@@ -465,7 +460,7 @@ func c08Prop(c *Ctx) {
 	srcs := append([]string{}, c08Sources...)
 	// the recorded finding duplicate-path-import
 	srcs = append(srcs, "package a\n\nimport (\n\t\"unsafe\"\n\t_ \"unsafe\"\n)\n\nvar _ = unsafe.Sizeof(0)\n")
-	// the two layout findings recorded under C01, on files with imports: the plain round trip changes
+	// two of the layout findings recorded under C01, on files with imports: the plain round trip changes
 	// them in the same way (see c08LayoutFinding)
 	srcs = append(srcs, "package a\n\nimport \"fmt\"\n\nvar (\n\ta = fmt.Sprint(1)\n\n// c\n)\n",
 		"package a\n\nimport \"fmt\"\n\nfunc f() {\n\tfmt.Println()\n//line x.go:10\n\tfmt.Println()\n}\n")
